@@ -354,6 +354,18 @@ static TrVar* prog_tr(long k);
 static TrVar* live_tr(long k);
 static thread_local Table<SlotVar>* g_sl;
 static thread_local Table<GBase*>* g_sg;
+// signal objects held through shared ownership (gshare / grel): the program's shared_ptr and a weak_ptr
+struct SharedSig { std::shared_ptr<GBase> sp; std::weak_ptr<GBase> wp; bool released = false; };
+static thread_local std::map<long, SharedSig>* g_sgsh;
+// a signal object the program may still name: plain ones while in the table; a shared one while the object lives
+static GBase** live_sg(long k)
+{
+  GBase** g = g_sg->get(k);
+  if (!g) return nullptr;
+  auto f = g_sgsh->find(k);
+  if (f != g_sgsh->end() && f->second.wp.expired()) { g_sg->drop(k); return nullptr; }
+  return g;
+}
 static thread_local Table<sigc::connection*>* g_cn;
 static thread_local Table<sigc::scoped_connection*>* g_kn;
 
@@ -376,6 +388,12 @@ static void collect_owned(long body, std::vector<std::shared_ptr<void>>& out)
   if (f == g_prog->owns.end()) return;
   for (long t : f->second)
   {
+    if (t >= 2000)
+    {
+      auto e = g_sgsh->find(t - 2000);
+      if (e != g_sgsh->end()) { auto sp = e->second.wp.lock(); if (sp) out.push_back(sp); }
+      continue;
+    }
     TrVar* v = g_tr->get(t);
     if (v && v->shared) { auto sp = v->wp.lock(); if (sp) out.push_back(sp); }
   }
@@ -541,7 +559,7 @@ static void exec_op(const Op& o)
     {
       auto f = g_prog->owns.find(A(1));
       if (f != g_prog->owns.end())
-        for (long t : f->second) if (g_tr->fresh(t)) refs_ok = false;
+        for (long t : f->second) if (t < 2000 && g_tr->fresh(t)) refs_ok = false;
     }
     if (g_sl->fresh(s) && refs_ok)
     {
@@ -624,14 +642,14 @@ static void exec_op(const Op& o)
   }
   else if (m == "gcopy" || m == "gmove")
   {
-    GBase** go = g_sg->get(A(1));
+    GBase** go = live_sg(A(1));
     if (go && g_sg->fresh(A(0)) && !(m == "gmove" && (*go)->acc >= 0))
       g_sg->put(A(0), m == "gcopy" ? (*go)->copy() : (*go)->move_from());
     else ev("-");
   }
   else if (m == "gasg" || m == "gmasg")
   {
-    GBase** d = g_sg->get(A(0)); GBase** s = g_sg->get(A(1));
+    GBase** d = live_sg(A(0)); GBase** s = live_sg(A(1));
     if (d && s && (*d)->same_kind(**s) && !(m == "gmasg" && (*d)->acc >= 0))
     {
       if (m == "gasg") (*d)->assign(**s); else (*d)->move_assign(**s);
@@ -640,12 +658,33 @@ static void exec_op(const Op& o)
   }
   else if (m == "gdel")
   {
-    GBase** g = g_sg->get(A(0));
-    if (g) { GBase* p = *g; g_sg->drop(A(0)); delete p; } else ev("-");
+    GBase** g = live_sg(A(0));
+    if (g && g_sgsh->find(A(0)) == g_sgsh->end()) { GBase* p = *g; g_sg->drop(A(0)); delete p; } else ev("-");
+  }
+  else if (m == "gshare")
+  {
+    GBase** g = live_sg(A(0));
+    if (g && A(0) < 1000 && g_sgsh->find(A(0)) == g_sgsh->end())
+    {
+      SharedSig e; e.sp = std::shared_ptr<GBase>(*g); e.wp = e.sp;
+      (*g_sgsh)[A(0)] = e;
+    }
+    else ev("-");
+  }
+  else if (m == "grel")
+  {
+    GBase** g = live_sg(A(0));
+    auto f = g_sgsh->find(A(0));
+    if (g && f != g_sgsh->end() && !f->second.released)
+    {
+      f->second.released = true;
+      auto sp = std::move(f->second.sp); f->second.sp.reset(); sp.reset();   // may destroy the signal object
+    }
+    else ev("-");
   }
   else if (m == "gconn")
   {
-    GBase** g = g_sg->get(A(0)); SlotVar* s = g_sl->get(A(1));
+    GBase** g = live_sg(A(0)); SlotVar* s = g_sl->get(A(1));
     if (g && s && (((*g)->rk == 'v') == (s->v != nullptr)))
     {
       long c = A(2);
@@ -660,7 +699,7 @@ static void exec_op(const Op& o)
   }
   else if (m == "gemit")
   {
-    GBase** g = g_sg->get(A(0));
+    GBase** g = live_sg(A(0));
     if (g)
     {
       GBase* p = *g;
@@ -669,17 +708,17 @@ static void exec_op(const Op& o)
     }
     else ev("-");
   }
-  else if (m == "gclear") { GBase** g = g_sg->get(A(0)); if (g) (*g)->base().clear(); else ev("-"); }
-  else if (m == "gblock") { GBase** g = g_sg->get(A(0)); if (g) (*g)->base().block(A(1) != 0); else ev("-"); }
+  else if (m == "gclear") { GBase** g = live_sg(A(0)); if (g) (*g)->base().clear(); else ev("-"); }
+  else if (m == "gblock") { GBase** g = live_sg(A(0)); if (g) (*g)->base().block(A(1) != 0); else ev("-"); }
   else if (m == "gq")
   {
-    GBase** g = g_sg->get(A(0));
+    GBase** g = live_sg(A(0));
     if (g) { auto& b = (*g)->base(); ev("gq%zu,%d%d", b.size(), b.empty() ? 1 : 0, b.blocked() ? 1 : 0); }
     else ev("-");
   }
   else if (m == "gmk")
   {
-    GBase** g = g_sg->get(A(1));
+    GBase** g = live_sg(A(1));
     if (g && g_sl->fresh(A(0)) && (*g)->acc < 0) { SlotVar v; (*g)->make_slot(v); g_sl->put(A(0), v); }
     else ev("-");
   }
@@ -781,7 +820,8 @@ static void exec_op(const Op& o)
       for (long k = 0; k < g_sc_live[b]; ++k) { if (!f.empty()) f += ","; f += std::to_string(b); }
     std::vector<std::pair<long, size_t>> regs;
     for (auto& kv : g_tr->live) if (live_tr(kv.first)) regs.push_back({kv.first, probe_regs(kv.second.base())});
-    for (auto& kv : g_sg->live) if (kv.second->tr()) regs.push_back({1000 + kv.first, probe_regs(*kv.second->tr())});
+    { std::vector<long> keys; for (auto& kv : g_sg->live) keys.push_back(kv.first);
+      for (long k : keys) { GBase** g = live_sg(k); if (g && (*g)->tr()) regs.push_back({1000 + k, probe_regs(*(*g)->tr())}); } }
     std::sort(regs.begin(), regs.end());
     for (auto& p : regs) { if (!r.empty()) r += ","; r += std::to_string(p.first) + "=" + (p.second == (size_t)-1 ? std::string("?") : std::to_string(p.second)); }
     ev("P[f:%s][r:%s][l:0]", f.c_str(), r.c_str());
@@ -799,7 +839,7 @@ static const std::map<std::string, int>& arity()
   static const std::map<std::string, int> a = {
     {"tnew",1},{"tnewsh",1},{"trel",1},{"tdel",1},{"tasg",2},{"tmasg",2},{"tnot",1},
     {"scopy",2},{"smove",2},{"sasg",2},{"smasg",2},{"scall",3},{"sblock",2},{"sdisc",1},{"sdel",1},{"sq",1},
-    {"gcopy",2},{"gmove",2},{"gasg",2},{"gmasg",2},{"gdel",1},{"gconn",5},{"gemit",3},{"gclear",1},{"gblock",2},{"gq",1},{"gmk",2},
+    {"gcopy",2},{"gmove",2},{"gasg",2},{"gmasg",2},{"gdel",1},{"gshare",1},{"grel",1},{"gconn",5},{"gemit",3},{"gclear",1},{"gblock",2},{"gq",1},{"gmk",2},
     {"cempty",1},{"ccopy",2},{"casg",2},{"cmove",2},{"cmasg",2},{"knewm",2},{"kasgm",2},{"cdisc",1},{"cblock",2},{"cdel",1},{"cq",1},
     {"knew",2},{"kempty",1},{"kasg",2},{"kmove",2},{"kmasg",2},{"kswap",2},{"krel",2},{"kdisc",1},{"kblock",2},{"kdel",1},{"kq",1},
     {"probe",0},{"throw",0}};
@@ -972,7 +1012,8 @@ static std::string run_sig(const std::string& line)
     long in_tables;
     {
       Table<TrVar> tr; Table<SlotVar> sl; Table<GBase*> sg; Table<sigc::connection*> cn; Table<sigc::scoped_connection*> kn;
-      g_tr = &tr; g_sl = &sl; g_sg = &sg; g_cn = &cn; g_kn = &kn;
+      std::map<long, SharedSig> sgsh;
+      g_tr = &tr; g_sl = &sl; g_sg = &sg; g_cn = &cn; g_kn = &kn; g_sgsh = &sgsh;
       for (const auto& o : pr.main)
       {
         try { exec_op(o); }
@@ -984,7 +1025,12 @@ static std::string run_sig(const std::string& line)
       for (auto& kv : kn.live) delete kv.second;
       for (auto& kv : cn.live) delete kv.second;
       for (auto& kv : sl.live) { delete kv.second.i; delete kv.second.v; }
-      for (auto& kv : sg.live) delete kv.second;
+      for (auto& kv : sg.live)
+      {
+        auto f = sgsh.find(kv.first);
+        if (f == sgsh.end()) delete kv.second;          // plain signal object
+        else f->second.sp.reset();                      // shared: the program's handle (if still held)
+      }
       for (auto& kv : tr.live) { if (kv.second.shared) kv.second.sp.reset(); else kv.second.destroy(); }
       (void)left;
       in_tables = 0;
